@@ -1,6 +1,96 @@
-From Coq Require Import ZArith NArith PArith List Bool.
-From Cohdl Require Import Models.Usage Models.UsageProofs.
+(** C07 - One driver per signal: conflicts rejected, accepted designs conflict-free. *)
+From Coq Require Import ZArith NArith PArith List Bool Permutation.
+From Cohdl Require Import Vhdl.Value Vhdl.Syntax Vhdl.Sem Vhdl.Drivers Models.Usage Models.UsageProofs.
 
+(** [C07_check_sound] is FALSE of the faithful (as-coded) model: a sequential context is visited together
+    with its hoisted always block under one [current_ctx] *)
 Theorem C07_check_refuted : exists D root, check D = Accept /\ drivers D root = 2.
 Proof. exact check_refuted. Qed.
 Print Assumptions C07_check_refuted.
+
+Theorem C07_check_refuted_users : exists D root, check D = Accept /\ users D root = 2.
+Proof. exact check_refuted_users. Qed.
+Print Assumptions C07_check_refuted_users.
+
+Theorem C07_check_refuted_input : exists D, check D = Accept /\ no_input_writtenb D = false.
+Proof. exact check_refuted_input. Qed.
+Print Assumptions C07_check_refuted_input.
+
+(** ... and PROVED for the corrected visiting discipline ([check_fixed]: the always block is a context of
+    its own, variables are rejected inside it, instance outputs may not drive input ports) *)
+Theorem C07_check_sound : forall D, check_fixed D = Accept ->
+  forall root, drivers D root <= 1 /\ (is_var_or_temp D root -> users D root <= 1) /\ no_input_written D.
+Proof. exact check_fixed_sound. Qed.
+Print Assumptions C07_check_sound.
+
+Example C07_check_sound_nonvacuous :
+  check_fixed sample_ok = Accept /\ check sample_ok = Accept
+  /\ drivers sample_ok 2 = 1 /\ drivers sample_ok 6 = 1 /\ users sample_ok 3 = 1.
+Proof. exact check_fixed_sound_nonvacuous. Qed.
+Print Assumptions C07_check_sound_nonvacuous.
+
+(** the converse reading: a conflicting design is rejected *)
+Theorem C07_check_complete : forall D root,
+  1 < drivers D root \/ 1 < users D root \/ no_input_writtenb D = false -> check_fixed D <> Accept.
+Proof. exact check_fixed_complete. Qed.
+Print Assumptions C07_check_complete.
+
+Example C07_check_complete_nonvacuous :
+  1 < drivers witness 1 /\ 1 < users witness_var 2 /\ no_input_writtenb witness_inst = false.
+Proof. exact check_fixed_complete_nonvacuous. Qed.
+Print Assumptions C07_check_complete_nonvacuous.
+
+Theorem C07_fixed_rejects_witnesses :
+  check_fixed witness = Reject RMultiWrite /\ check_fixed witness_var = Reject RVarInConc
+  /\ check_fixed witness_inst = Reject RInputWritten.
+Proof. exact check_fixed_rejects_witnesses. Qed.
+Print Assumptions C07_fixed_rejects_witnesses.
+
+(** the executable spec evaluated by the harness on every placement is implied by acceptance *)
+Theorem C07_accept_conflict_free : forall D, check_fixed D = Accept -> conflict_freeb D = true.
+Proof. exact check_fixed_conflict_free. Qed.
+Print Assumptions C07_accept_conflict_free.
+
+
+(** no over-rejection in the corrected model: conflict free + the context-local rules of ConvertInstance
+    (no variable in a concurrent context / always block, temporaries written before read) => accepted *)
+Theorem C07_check_exact : forall D,
+  (forall root, drivers D root <= 1 /\ users D root <= 1) -> no_input_written D ->
+  locally_ok Fixed D = true -> check_fixed D = Accept.
+Proof. exact check_fixed_exact. Qed.
+Print Assumptions C07_check_exact.
+
+Example C07_check_exact_nonvacuous :
+  (forall root, drivers sample_ok root <= 1 /\ users sample_ok root <= 1) /\ locally_ok Fixed sample_ok = true.
+Proof. exact check_fixed_exact_nonvacuous. Qed.
+Print Assumptions C07_check_exact_nonvacuous.
+
+(** emitted text: the order in which the statements' writes reach [Sem.commit] does not matter.
+    PARTIAL: proved for [single_driver_roots] (different statements assign different signals);
+    missing: disjoint scalars of ONE signal assigned by different statements (needs commutation of
+    [Bits.setslice] on disjoint ranges) and the order-independence of the variable-store threading of
+    [Sem.run_all] (frame property of [exec] under [vars_local]). *)
+Theorem C07_single_driver_sound_partial : forall d sg ev wss wss',
+  single_driver_roots d = true ->
+  Forall2 (fun c ws => exists vr0 vr1, run_conc sg vr0 ev c = Ok (vr1, ws)) d.(d_conc) wss ->
+  Permutation wss wss' ->
+  res_equiv (commit sg (List.concat wss)) (commit sg (List.concat wss')).
+Proof. exact single_driver_sound_partial. Qed.
+Print Assumptions C07_single_driver_sound_partial.
+
+(** the two-statement swap lemma and its lift, on write lists *)
+Theorem C07_commit_swap : forall a b rest, roots_disjoint a b ->
+  forall s, res_equiv (commit s (a ++ b ++ rest)) (commit s (b ++ a ++ rest)).
+Proof. exact commit_swap_blocks. Qed.
+Print Assumptions C07_commit_swap.
+
+Theorem C07_commit_perm : forall wss wss' s,
+  (forall r, owners_of r wss <= 1) -> Permutation wss wss' ->
+  res_equiv (commit s (List.concat wss)) (commit s (List.concat wss')).
+Proof. exact commit_perm. Qed.
+Print Assumptions C07_commit_perm.
+
+Example C07_single_driver_nonvacuous :
+  exists d, single_driver d = true /\ single_driver_roots d = false.
+Proof. exact single_driver_nonvacuous. Qed.
+Print Assumptions C07_single_driver_nonvacuous.
